@@ -19,7 +19,7 @@ theorem kept_pm {z : Bytes} {a : Archive} {sm : SpecZip.Member} {e : Entry} {at_
     (hT0 : e.flags % 16 / 8 ≠ 1 → e.hoff + m.total = sm.dataOff + e.csize)
     (hT1 : e.flags % 16 / 8 = 1 → ∃ w, w ∈ sm.descWidths ∧ (w = 16 ∨ w = 24) ∧
         e.hoff + m.total = sm.dataOff + e.csize + w)
-    (ho : o < 2 ^ 64) (hx : e.extra.length + 28 < 2 ^ 16) :
+    (ho : o < 2 ^ 64) (hx : dirHeaderOK (placed o m) = true) :
     Emits (placed o m) (keptEntry e (placed o m) o) ∧ (keptEntry e (placed o m) o).hoff = o ∧
     MemberRec (extent z m) (keptEntry e (placed o m) o).name (keptEntry e (placed o m) o).flags
       (keptEntry e (placed o m) o).crc (keptEntry e (placed o m) o).csize (keptEntry e (placed o m) o).usize ∧
@@ -80,7 +80,15 @@ theorem kept_pm {z : Bytes} {a : Archive} {sm : SpecZip.Member} {e : Entry} {at_
         by rw [p9]; exact b14, by rw [p15]; exact ho⟩
       rw [hsx]
       split
-      · simp only [List.length_append, z64Extra_length]; omega
+      · next hbig =>
+        have hroom : (placed o m).extra.length + 28 ≤ 65535 := by
+          unfold dirHeaderOK at hx
+          rw [hraw] at hx
+          have hb' : decide ((placed o m).csize ≥ u32Max ∨ (placed o m).usize ≥ u32Max ∨ (placed o m).offset ≥ u32Max) = true := by
+            simpa [synthBig] using hbig
+          simpa [hb'] using hx
+        rw [p11] at hroom
+        simp only [List.length_append, z64Extra_length]; omega
       · exact b9
     rw [hen]
     refine ⟨emits_synth hraw hfit, p15, ?_, ?_, hlen, p10, p4, p3, p7, p8, p9, p12, ?_⟩
@@ -202,32 +210,33 @@ theorem contigK_le : ∀ (kms : List KM) (pos stop : Nat), contigK pos kms stop 
 
 /-- **the kept segment.** In an output that holds the kept members' extents back to back from `L`, the
     directory entries `AddFile` makes stand for well-formed members placed back to back. -/
-theorem kept_segment {z : Bytes} {a : Archive} (hcdz : a.ends.cdOff ≤ z.length)
-    (hx : ∀ sm ∈ a.members, sm.entry.extra.length + 28 < 2 ^ 16) :
+theorem kept_segment {z : Bytes} {a : Archive} (hcdz : a.ends.cdOff ≤ z.length) :
     ∀ (kms : List KM) (at_ : Nat) (pre post : Bytes) (L : Nat), MeasuredL z a at_ kms →
       (∀ q ∈ kms, q.2.1 ∈ a.members) → pre.length = L → L + keptLenK kms < 2 ^ 64 →
+      (∀ q ∈ keptPMs z kms L, dirHeaderOK q.1 = true) →
       (∀ q ∈ keptPMs z kms L, Emits q.1 q.2.e) ∧
       PMsSeg (pre ++ keptBytesK z kms ++ post) L ((keptPMs z kms L).map (·.2)) (L + keptLenK kms) := by
   intro kms
   induction kms with
-  | nil => intro at_ pre post L _ _ _ _; exact ⟨by simp [keptPMs], by simp [keptPMs, PMsSeg, keptLenK]⟩
+  | nil => intro at_ pre post L _ _ _ _ _; exact ⟨by simp [keptPMs], by simp [keptPMs, PMsSeg, keptLenK]⟩
   | cons q r ih =>
-    intro at_ pre post L hM hmem hpre hb
+    intro at_ pre post L hM hmem hpre hb hx
     obtain ⟨k, sm, m⟩ := q
     obtain ⟨hmo, hat, hg, ⟨l, ddb, hfile⟩, hdo, hT0, hT1, hTle, hrest⟩ := hM
     have hmem' : ∀ q ∈ r, q.2.1 ∈ a.members := fun q hq => hmem q (List.mem_cons_of_mem _ hq)
     cases k with
     | false =>
-      simp only [keptPMs, keptBytesK, keptLenK, Bool.false_eq_true, if_false, List.nil_append, Nat.zero_add] at hb ⊢
-      exact ih _ pre post L hrest hmem' hpre hb
+      simp only [keptPMs, keptBytesK, keptLenK, Bool.false_eq_true, if_false, List.nil_append, Nat.zero_add] at hb hx ⊢
+      exact ih _ pre post L hrest hmem' hpre hb hx
     | true =>
-      simp only [keptPMs, keptBytesK, keptLenK, if_true] at hb ⊢
+      simp only [keptPMs, keptBytesK, keptLenK, if_true] at hb hx ⊢
       have hT1' : sm.entry.flags % 16 / 8 = 1 → ∃ w, w ∈ sm.descWidths ∧ (w = 16 ∨ w = 24) ∧
           sm.entry.hoff + m.total = sm.dataOff + sm.entry.csize + w := by
         intro hd; obtain ⟨w, h1, h2, h3, _⟩ := hT1 hd; exact ⟨w, h1, h2, h3⟩
       obtain ⟨k1, k2, k3, k4, k5, _⟩ := kept_pm (o := L) hmo hcdz hat hfile hT0 hT1' (by omega)
-        (hx sm (hmem _ (List.mem_cons_self ..)))
+        (hx _ (List.mem_cons_self ..))
       have hi := ih _ (pre ++ extent z m) post (L + m.total) hrest hmem' (by simp [hpre, k5]) (by omega)
+        (fun q hq => hx q (List.mem_cons_of_mem _ hq))
       have hassoc : pre ++ (extent z m ++ keptBytesK z r) ++ post = pre ++ extent z m ++ keptBytesK z r ++ post := by
         simp [List.append_assoc]
       refine ⟨?_, ?_⟩
